@@ -63,6 +63,7 @@ type Config struct {
 	ContextBound int
 	MaxSched     int
 	RaceCheck    bool
+	NoIfConv     bool
 }
 
 type Exec struct {
@@ -107,6 +108,7 @@ type Exec struct {
 	syncs      map[string]*syncState
 	syncFields map[string]*Object
 	views      map[string]*Object
+	regions    map[*ssa.BasicBlock]*regionInfo
 	tickers    map[*Object]*Timer
 
 	// statistics (cumulative)
@@ -125,6 +127,7 @@ type Stats struct {
 	BlockTrans int
 	SchedSteps int
 	Instrs     int
+	IfConv     int
 	Funcs      map[string]bool
 	Stubs      map[string]bool
 }
